@@ -247,7 +247,8 @@ PROPS["C17"] = dict(
     rule="op seqls: the real binary (built from /repo/cmd/seqls on every run) on a generated tree (1-6 directories, depth <= 4, "
          "hidden directories and files, empty directories, file links, one directory link per target placed in the tree root; "
          "flag 'C': aliased and cyclic links anywhere, termination only) x random subsets of -r -a -s --hash1 -f x 1-3 root "
-         "arguments (directories in 4 spellings, '.', the absolute root, a missing path, a pattern); every op runs the binary "
+         "arguments (directories in 4 spellings, '.', the absolute root, a missing path, a pattern); every tenth op is a flat tree of "
+         "100-180 directories all passed as arguments (more queued work than the 50 workers); every op runs the binary "
          "with GOMAXPROCS 1, 2 and 16 under a 20 s deadline; observed: sorted lines, their expansion (exact cover vs the selected "
          "files, once per visiting path), error-line count, run-to-run stability, timeout; non-trivial = any distinct op",
     assumptions=["fastwalk: callback once per entry, returns after all callbacks", "scheduler fairness", "schedules of the real binary are sampled",
